@@ -1802,9 +1802,12 @@ def _readsegment(
             result += before
             return after, result
 
-        buf = _recv(sock, RECV_SIZE)
-        if not buf:
+        # Keep what was already received: the end tokens may straddle two
+        # chunks, and everything before them belongs to the segment.
+        chunk = _recv(sock, RECV_SIZE)
+        if not chunk:
             raise MemcacheUnexpectedCloseError()
+        buf += chunk
 
 
 def _recv(sock: socket.socket, size: int) -> bytes:
